@@ -6,6 +6,10 @@ A driver is any object with `feed(chunk: bytes)`, `out` (list of outcome tuples,
 (number of bytes still held by the receiving side) and optionally `finish()` (one more `next(None)`-style poll; anything
 it produces is appended to `out`).  Tier T2 will register Paths whose driver pushes the same chunks through SimNet
 into the four real endpoint receive loops; nothing else in this module needs to change (`make_harnesses(paths)`).
+
+Shared-protocol mode (`run_shared`, harnesses `shared-<path>`): several drivers of one path are built from the SAME protocol
+object, each gets its own stream, and their reads are interleaved; a `Path.run_group` function runs the group (T1: feed in
+schedule order; T2: one link and one real endpoint per consumer).  `judge` is the per-consumer oracle of both modes.
 """
 from __future__ import annotations
 
@@ -42,8 +46,14 @@ RULE = (
     "stream, and single reads, exceed the limit while every packet is within it; tier T2 pushes the same chunks through a SimSocket link "
     "into the real receive loops (blocking StreamEndpoint over SocketStreamTransport: recv_packet(timeout=0) after every chunk, or "
     "recv_packet(timeout=None) against a scripted delivery until EOF; AsyncStreamEndpoint over the asyncio socket adapter on SimEventLoop), "
-    "max_recv_size from the hint set; oracle = the list that was sent. A run is non-trivial when the stream was fragmented (fault kind 'frag') "
-    "and >= 1 packet was returned."
+    "max_recv_size from the hint set; oracle = the list that was sent. Shared-protocol mode (harnesses shared-<path>, every receive path, "
+    "the family drawn inside): 2-3 consumers/endpoints built from ONE protocol object (one serializer, one converter, as all the "
+    "connections of a server are), each with its own 1-5 packets, its own produced stream and its own chunking; the reads of the streams "
+    "are interleaved in a drawn order (fault kind 'interleave': another consumer reads while one has not yet got its whole stream; probe "
+    "'interleave_mid_packet'); T2: one SimSocket link per endpoint, sync endpoints polled from one thread, async endpoints one receiver "
+    "task each on one loop; every consumer must return exactly the list sent on ITS stream (same three clauses, keys "
+    "C01/<family>/<path>-shared/...). A run is non-trivial when a stream was fragmented (fault kind 'frag') or the reads of two "
+    "consumers were interleaved, and >= 1 packet was returned."
 )
 COMPONENTS_REAL = [
     "easynetwork.serializers.* (line, json, struct, pickle, wrapper.base64, wrapper.compressor, composite, base_stream, tools)",
@@ -63,6 +73,8 @@ ASSUMPTIONS = [
     "a configured limit is always >= every single frame plus the 'safely within the limit' margin of C02 (separator length + 2; file-based: 0); "
     "the stream as a whole and single reads may exceed it (this is what re-finds D8 when its fix is reverted)",
     "leftover bytes that the copy consumer has already handed to the suspended parser are not observable (T1 and T2 alike)",
+    "shared-protocol mode: the consumers of one protocol object are driven from one thread / one event loop (reads interleave at "
+    "read granularity, never inside a serializer call); all of them use the same serializer options, limit and debug flag",
     "CBOR/MessagePack serializers are not installed; FileBasedPacketSerializer is exercised through a pickle-backed subclass",
 ]
 BUDGET = {"quick": 40, "thorough": 480}
@@ -81,6 +93,9 @@ class Path:
     needs: str  # "stream" | "buffered"
     make: Callable[[Any, World, bool], Any]  # (protocol, world, large) -> driver
     weight: int | None = None  # None: the family weight
+    # shared-protocol mode (run_shared): (world, drivers, schedule [(consumer index, chunk)]) -> index of the consumer that
+    # reported a non-packet outcome (feeding stops there) or None.  None here = `run_group_t1`.
+    run_group: Callable[[World, list, list], int | None] | None = None
 
 
 def _make_copy(protocol: Any, world: World, large: bool) -> Any:
@@ -226,16 +241,7 @@ class SyncEndpointDriver(_T2Driver):
                         ok = self._poll(endpoint, cap)
                         if not ok:
                             break
-                    # A zero timeout is a single poll: nothing says one call must drain the socket (DESIGN C11), so keep
-                    # polling while the socket still holds unread bytes; then one more poll, which must not produce anything.
-                    while ok and lib.rx_pipe.rx and len(self.out) <= cap:
-                        before = (len(lib.rx_pipe.rx), len(self.out))
-                        ok = self._poll(endpoint, cap)
-                        if (len(lib.rx_pipe.rx), len(self.out)) == before:
-                            break  # a poll that neither reads nor returns anything: the leftover is reported by pending()
-                    if ok:
-                        self.n_before_final = len(self.out)
-                        ok = self._poll(endpoint, cap)  # nothing more may come out
+                    ok = self._poll_tail(endpoint, lib, cap, ok)
                 else:
                     peer.write(b"".join(self.chunks))
                     peer.fin()
@@ -261,6 +267,19 @@ class SyncEndpointDriver(_T2Driver):
                     self._measure(endpoint, lib)
             finally:
                 endpoint.close()
+
+    def _poll_tail(self, endpoint: Any, lib: Any, cap: int, ok: bool) -> bool:
+        # A zero timeout is a single poll: nothing says one call must drain the socket (DESIGN C11), so keep
+        # polling while the socket still holds unread bytes; then one more poll, which must not produce anything.
+        while ok and lib.rx_pipe.rx and len(self.out) <= cap:
+            before = (len(lib.rx_pipe.rx), len(self.out))
+            ok = self._poll(endpoint, cap)
+            if (len(lib.rx_pipe.rx), len(self.out)) == before:
+                break  # a poll that neither reads nor returns anything: the leftover is reported by pending()
+        if ok:
+            self.n_before_final = len(self.out)
+            ok = self._poll(endpoint, cap)  # nothing more may come out
+        return ok
 
     def _poll(self, endpoint: Any, cap: int) -> bool:
         while len(self.out) <= cap:
@@ -304,25 +323,8 @@ class AsyncEndpointDriver(_T2Driver):
             endpoint = AsyncStreamEndpoint(await backend.wrap_stream_socket(lib), self.protocol, self.mrs)
             cap = sum(len(c) for c in self.chunks) + 8
 
-            async def receiver() -> bool:
-                while len(self.out) <= cap:
-                    try:
-                        pkt = await endpoint.recv_packet()
-                    except ConnectionAbortedError:
-                        return True
-                    except asyncio.CancelledError:
-                        raise
-                    except BaseException as exc:  # noqa: BLE001
-                        self._emit_exc(exc)
-                        if self._go_on():
-                            continue
-                        return False
-                    else:
-                        self._emit(("pkt", pkt))
-                        if slow:
-                            await asyncio.sleep(2 / 64)
-                self._emit(("crash", "Spin", None, "recv_packet() keeps returning packets"))
-                return False
+            def receiver() -> Any:
+                return self._receive_loop(endpoint, cap, slow)
 
             rest = list(self.chunks)
             for c in rest[: {0: 0, 1: 1, 2: len(rest)}[head_start]]:
@@ -357,6 +359,27 @@ class AsyncEndpointDriver(_T2Driver):
 
         with sim_sockets(net), patched_clock(world):
             run_async(world, main)
+
+
+    async def _receive_loop(self, endpoint: Any, cap: int, slow: bool) -> bool:
+        while len(self.out) <= cap:
+            try:
+                pkt = await endpoint.recv_packet()
+            except ConnectionAbortedError:
+                return True
+            except asyncio.CancelledError:
+                raise
+            except BaseException as exc:  # noqa: BLE001
+                self._emit_exc(exc)
+                if self._go_on():
+                    continue
+                return False
+            else:
+                self._emit(("pkt", pkt))
+                if slow:
+                    await asyncio.sleep(2 / 64)
+        self._emit(("crash", "Spin", None, "recv_packet() keeps returning packets"))
+        return False
 
 
 def _t2(cls: Any) -> Callable[[Any, World, bool], Any]:
@@ -458,10 +481,14 @@ def run_roundtrip(world: World, family: str, path: Path) -> None:
             drv.drain(None)  # next(None) must raise StopIteration right away: nothing may be appended to `out`
 
     n_before_finish = getattr(drv, "n_before_final", None) or n_before_finish  # deferred (T2) drivers run everything in finish()
-    out = drv.out
-    world.log("c01", path.name, entry.name, len(chunks), tuple(o[0] for o in out))
-    world.progress(sum(1 for o in out if o[0] == "pkt"))
+    world.log("c01", path.name, entry.name, len(chunks), tuple(o[0] for o in drv.out))
+    world.progress(sum(1 for o in drv.out if o[0] == "pkt"))
+    judge(entry, site, drv, expected, n_before_finish, ctx)
 
+
+def judge(entry: M.Entry, site: str, drv: Any, expected: list, n_before_finish: int, ctx: Callable[[], str]) -> None:
+    """The three clauses of C01 for ONE consumer: `drv.out` against the list that was sent on its stream."""
+    out = drv.out
     # clause 1: no error is reported anywhere
     for i, o in enumerate(out):
         if o[0] == "crash":
@@ -497,6 +524,230 @@ def run_roundtrip(world: World, family: str, path: Path) -> None:
         raise Violation("no-leftover", f"{pend} bytes still held after the last packet: {_short(held)}\n{ctx()}", key=f"{site}/no-leftover")
 
 
+# ------------------------------------------------------------------------------------------------ shared protocol object
+# One protocol object (hence one serializer, one converter) is what all the connections of a server, or all the clients built
+# from a module-level constant, use.  The statement quantifies over "protocols" and "serializers", not over "a protocol used
+# by a single connection": every consumer built from the object receives its own stream and must return exactly its own
+# packets, whatever the other consumers of the same object are doing between two of its reads.
+SHARED_MAX_CONSUMERS = 3
+
+
+def run_group_t1(world: World, drivers: list, schedule: list) -> int | None:
+    """T1 drivers: feed in schedule order; afterwards one extra poll per consumer (as in run_roundtrip)."""
+    for i, c in schedule:
+        world.log("turn", i)
+        d = drivers[i]
+        d.feed(c)
+        if d.out and d.out[-1][0] != "pkt":
+            return i
+    for i, d in enumerate(drivers):
+        world.log("turn", i, "final")
+        d.n_before_final = len(d.out)
+        d.drain(None)
+    return None
+
+
+def run_group_t2sync(world: World, drivers: list, schedule: list) -> int | None:
+    """k blocking StreamEndpoints (one SimSocket link each) built from the same protocol object, polled from one thread:
+    the chunk of the schedule becomes visible on its link, then that endpoint is polled with recv_packet(timeout=0) until
+    TimeoutError (SyncEndpointDriver 'poll' mode; the blocking mode cannot interleave two endpoints in one thread)."""
+    retry = world.pick("retry_interval", [math.inf, 1.0, 1 / 64])
+    world.notes.update(t2_mode="poll", retry_interval=str(retry))
+    for i, d in enumerate(drivers):
+        d.chunks = [c for j, c in schedule if j == i]
+        d._draw_mrs()
+    world.notes.update(max_recv_size=[d.mrs for d in drivers])
+    net = SimNet(world)
+    links = []
+    with sync_engine(world) as make_selector:
+        try:
+            for d in drivers:
+                lib, ps = net.socketpair(delivery_ba=Delivery(frag=5))
+                endpoint = StreamEndpoint(SocketStreamTransport(lib, retry, selector_factory=make_selector), d.protocol, d.mrs)
+                links.append((lib, ps, Peer(world, ps), endpoint, sum(len(c) for c in d.chunks) + 8))
+            for i, c in schedule:
+                world.log("turn", i)
+                lib, ps, peer, endpoint, cap = links[i]
+                peer.write(c)
+                ps.tx_pipe.deliver(len(c))
+                if not drivers[i]._poll(endpoint, cap):
+                    return i
+            for i, d in enumerate(drivers):
+                world.log("turn", i, "final")
+                lib, ps, peer, endpoint, cap = links[i]
+                if not d._poll_tail(endpoint, lib, cap, True):
+                    return i
+                d._measure(endpoint, lib)
+        finally:
+            for link in links:
+                link[3].close()
+    return None
+
+
+def run_group_t2aio(world: World, drivers: list, schedule: list) -> int | None:
+    """k AsyncStreamEndpoints (one SimSocket link each) built from the same protocol object on one SimEventLoop, one
+    receiver task each; the feeder makes the chunks visible in schedule order (AsyncEndpointDriver's gap / head start /
+    slow receiver parameters), then FIN on every link."""
+    gap = world.pick("gap", [1, 0, 3]) / 64.0
+    head_start = world.choose("head_start", 3)  # schedule steps made visible before the receivers start: none / the first / all
+    slow = world.choose("slow_receiver", 3) == 2
+    world.notes.update(gap=gap, head_start=head_start, slow_receiver=slow)
+    for i, d in enumerate(drivers):
+        d.chunks = [c for j, c in schedule if j == i]
+        d._draw_mrs()
+    world.notes.update(max_recv_size=[d.mrs for d in drivers])
+    net = SimNet(world)
+    backend = SimAsyncIOBackend(net)
+    world.FREE_ZERO_WAITS = 1 << 30  # type: ignore[misc]
+    failed: list[int | None] = [None]
+
+    async def main() -> None:
+        links = []
+        tasks: list[Any] = []
+        try:
+            for d in drivers:
+                lib, ps = net.socketpair(delivery_ba=Delivery(frag=5))
+                endpoint = AsyncStreamEndpoint(await backend.wrap_stream_socket(lib), d.protocol, d.mrs)
+                links.append((lib, ps, Peer(world, ps), endpoint, sum(len(c) for c in d.chunks) + 8))
+
+            async def show(i: int, c: bytes) -> None:
+                world.log("turn", i)
+                links[i][2].write(c)
+                links[i][1].tx_pipe.deliver(len(c))
+                await asyncio.sleep(gap)
+
+            rest = list(schedule)
+            nhead = {0: 0, 1: 1, 2: len(rest)}[head_start]
+            for i, c in rest[:nhead]:
+                await show(i, c)
+            del rest[:nhead]
+            loop = asyncio.get_running_loop()
+            for i, d in enumerate(drivers):
+                tasks.append(loop.create_task(d._receive_loop(links[i][3], links[i][4], slow), name=f"c01-receiver-{i}"))
+            for i, c in rest:
+                if any(t.done() for t in tasks):
+                    break
+                await show(i, c)
+            early = [i for i, t in enumerate(tasks) if t.done()]
+            if early:  # a receiver ended before any FIN: it reported a non-packet outcome (or raised: re-raised here)
+                await tasks[early[0]]
+                failed[0] = early[0]
+                return
+            await asyncio.sleep(1 / 64)
+            for i, d in enumerate(drivers):
+                d.n_before_final = len(d.out)
+                links[i][2].fin()
+                links[i][1].tx_pipe.deliver_fin()
+            for i, d in enumerate(drivers):
+                try:
+                    ok = await asyncio.wait_for(tasks[i], 64.0)
+                except TimeoutError:
+                    d._emit(("crash", "Deadlock", None, "the receiver task did not see end-of-stream within 64 virtual seconds after FIN"))
+                    ok = False
+                if not ok:
+                    failed[0] = i
+                    return
+            for i, d in enumerate(drivers):
+                d._measure(links[i][3], links[i][0])
+        finally:
+            for t in tasks:
+                if not t.done():
+                    t.cancel()
+            for link in links:
+                await link[3].aclose()
+
+    with sim_sockets(net), patched_clock(world):
+        run_async(world, main)
+    return failed[0]
+
+
+def _pick_family(world: World, needs: str) -> str:
+    fams = [f for f in M.FAMILIES if M.select(f, needs=needs, roundtrip=True, large=False)]
+    weights = [_FAMILY_WEIGHT.get(f, 1) for f in fams]
+    r = world.choose("family", sum(weights))
+    for f, w in zip(fams, weights):
+        if r < w:
+            return f
+        r -= w
+    raise AssertionError
+
+
+def run_shared(world: World, path: Path) -> None:
+    """k = 2..3 consumers (drivers of `path`) built from ONE protocol object; every consumer has its own packets, its own
+    produced stream and its own chunking; the reads of the k streams are interleaved in a drawn order.  Oracle: the three
+    clauses of C01 for every consumer, against the list sent on ITS stream."""
+    family = _pick_family(world, path.needs)
+    entries = M.select(family, needs=path.needs, roundtrip=True, large=False)
+    entry = entries[world.choose("entry", len(entries))]
+    k = 2 + world.choose("consumers", SHARED_MAX_CONSUMERS - 1)
+
+    sent = []  # (packets, stream, bounds, expected)
+    for _ in range(k):
+        packets = entry.gen_packets(world, 1 + world.choose("npackets", 5), "stream", False)
+        stream, bounds = M.produce(entry.protocol(path.needs, None), packets)  # sender side: its own fresh protocol object
+        sent.append((packets, stream, bounds, [entry.expect(p, "stream") for p in packets]))
+    limit = None
+    if entry.has_limit and world.choose("tight_limit", 4) == 3:
+        limit = max(tight_limit(entry, b) for _, _, b, _ in sent) + world.choose("limit_slack", 4)
+        world.probe("tight_limit")
+
+    all_chunks = []
+    for _, stream, bounds, _ in sent:
+        structural = M.LazyCuts(lambda stream=stream, bounds=bounds: M.structural_cuts(stream, bounds, entry.sep, entry.hints))
+        all_chunks.append(cuts_to_chunks(stream, bounded_cuts(world, len(stream), structural, MAX_CHUNKS_LARGE if len(stream) > 8192 else None)))
+
+    # the order of the reads: 0 = the first consumer that still has chunks (all zeros: one stream after the other)
+    pos = [0] * k
+    schedule: list[tuple[int, bytes]] = []
+    last = -1
+    while True:
+        active = [i for i in range(k) if pos[i] < len(all_chunks[i])]
+        if not active:
+            break
+        i = active[world.choose("turn", len(active))] if len(active) > 1 else active[0]
+        if last >= 0 and i != last and pos[last] < len(all_chunks[last]):
+            world.fault("interleave")  # another consumer of the same protocol object reads before `last` got its whole stream
+            if sum(len(c) for c in all_chunks[last][: pos[last]]) not in sent[last][2]:
+                world.probe("interleave_mid_packet")
+        schedule.append((i, all_chunks[i][pos[i]]))
+        pos[i] += 1
+        last = i
+
+    debug = bool(world.choose("debug", 2))
+    world.notes.update(
+        entry=entry.name, path=path.name, shared=k, limit=limit, debug=debug, npackets=[len(x[0]) for x in sent], stream_len=[len(x[1]) for x in sent],
+        order=[i for i, _ in schedule][:64], chunks=[len(c) for _, c in schedule][:64],
+    )
+    protocol = entry.protocol(path.needs, limit, debug=debug)  # THE protocol object, shared by the k consumers
+    drivers = []
+    params = []
+    for _ in range(k):
+        drivers.append(path.make(protocol, world, False))
+        params.append({n: world.notes[n] for n in ("size_hint", "fill_mode") if n in world.notes})
+    failed = (path.run_group or run_group_t1)(world, drivers, schedule)
+
+    site = f"C01/{family}/{path.name}-shared"
+    for i, d in enumerate(drivers):
+        world.log("c01", path.name, entry.name, i, len(all_chunks[i]), tuple(o[0] for o in d.out))
+        world.progress(sum(1 for o in d.out if o[0] == "pkt"))
+
+    def ctx(i: int) -> str:
+        packets, stream, bounds, _ = sent[i]
+        return (
+            f"consumer #{i} of {k} sharing one protocol object; entry={entry.name} path={path.name} limit={limit} debug={debug} params={params[i]} "
+            f"notes={ {n: world.notes[n] for n in ('max_recv_size', 't2_mode', 'gap', 'head_start', 'slow_receiver', 'retry_interval') if n in world.notes} } "
+            f"packets={_short(packets, 400)} stream({len(stream)})={_short(stream, 300)} bounds={bounds}\n"
+            f"order of the reads (consumer, bytes)={[(j, len(c)) for j, c in schedule][:96]}\n"
+            + "\n".join(f"  stream #{j}({len(sent[j][1])})={_short(sent[j][1], 200)}" for j in range(k) if j != i)
+        )
+
+    # feeding stopped at the first non-packet outcome: only that consumer can be judged (clause 1 fires); otherwise all of them
+    for i in [failed] if failed is not None else range(k):
+        d = drivers[i]
+        n_before = getattr(d, "n_before_final", None)
+        judge(entry, site, d, sent[i][3], len(d.out) if n_before is None else n_before, lambda i=i: ctx(i))
+
+
 # ------------------------------------------------------------------------------------------------ harness table
 # T1 runs cost ~1 ms, T2 runs several ms: T1 harnesses get 4x their family weight, every T2 harness weight 1 (~20 % of the runs)
 _FAMILY_WEIGHT = {"line": 12, "json": 12, "base64": 8, "zlib": 8, "bz2": 4, "struct": 4, "namedtuple": 4, "autosep": 8, "fixed": 4, "filebased": 8, "stapled": 8, "converter": 4}
@@ -520,4 +771,24 @@ def make_harnesses(paths: dict[str, Path], suffix: str = "", tiers: tuple = ("qu
     return out
 
 
-HARNESSES = make_harnesses(PATHS) + make_harnesses(T2_PATHS)
+# shared-protocol mode: one harness per receive path, the family is drawn inside (weights of _FAMILY_WEIGHT)
+_SHARED = [
+    (PATHS["copy"], None, 8),
+    (PATHS["fill"], None, 10),
+    (PATHS["copylazy"], None, 2),
+    (T2_PATHS["t2sync-copy"], run_group_t2sync, 1),
+    (T2_PATHS["t2sync-fill"], run_group_t2sync, 2),
+    (T2_PATHS["t2aio-copy"], run_group_t2aio, 1),
+    (T2_PATHS["t2aio-fill"], run_group_t2aio, 2),
+]
+
+
+def make_shared_harnesses() -> list[Harness]:
+    out = []
+    for path, group, weight in _SHARED:
+        p = dataclasses.replace(path, run_group=group)
+        out.append(Harness(f"shared-{p.name}", (lambda w, p=p: run_shared(w, p)), weight=weight, wall_limit=120.0))
+    return out
+
+
+HARNESSES = make_harnesses(PATHS) + make_harnesses(T2_PATHS) + make_shared_harnesses()
